@@ -29,6 +29,7 @@ Inductive aop :=
 | OpDeep (x : var) (ys : list var)               (* x = copy.deepcopy(e), e mentioning ys *)
 | OpShallow (x : var) (ys : list var)            (* x = dict(e) / list(e) / copy.copy(e) / a display mentioning ys *)
 | OpAlias (x : var) (ys : list var)              (* x = something reachable from the ys *)
+| OpCopy (x y : var)                             (* x = y: the very same object *)
 | OpStore (x : var) (top : bool) (ys : list var). (* mutate x itself (top) or something inside it; new contents come from ys *)
 
 Inductive item :=
@@ -50,8 +51,8 @@ Definition inner_lvl (l : lvl) : lvl := match l with Deep => Deep | _ => Ext end
 Definition alias_all (e : aenv) (ys : list var) : lvl := fold_right (fun y a => lvl_join (inner_lvl (aget y e)) a) Deep ys.
 Definition all_deep (e : aenv) (ys : list var) : bool := forallb (fun y => match aget y e with Deep => true | _ => false end) ys.
 
-(* every variable that was Deep may now reach non-fresh contents *)
-Definition degrade (e : aenv) : aenv := map (fun yl => (fst yl, match snd yl with Deep => Ext | l => l end)) e.
+(* every variable that was Deep may now reach non-fresh contents; its own object is still not the caller's *)
+Definition degrade (e : aenv) : aenv := map (fun yl => (fst yl, match snd yl with Deep => Shal | l => l end)) e.
 
 (* one operation: new environment, and whether the operation is allowed *)
 Definition astep (strong : bool) (e : aenv) (o : aop) : aenv * bool :=
@@ -61,6 +62,7 @@ Definition astep (strong : bool) (e : aenv) (o : aop) : aenv * bool :=
   | OpDeep x _ => (upd x Deep, true)
   | OpShallow x ys => (upd x (if all_deep e ys then Deep else Shal), true)
   | OpAlias x ys => (upd x (alias_all e ys), true)
+  | OpCopy x y => (upd x (aget y e), true)
   | OpStore x top ys =>
       let ok := match aget x e with Deep => true | Shal => top | Ext => false end in
       (if all_deep e ys then e else aset x (lvl_join (aget x e) Shal) (degrade e), ok)
@@ -145,6 +147,7 @@ Inductive cstep : heap -> cenv -> aop -> heap -> cenv -> list loc -> Prop :=
     cstep h e (OpShallow x ys) (h ++ [{| owned := false; kids := ks |}]) (cset x (Some (List.length h)) e) []
 | cs_alias : forall h e x ys l, from_vars h e ys l -> cstep h e (OpAlias x ys) h (cset x (Some l) e) []
 | cs_alias_imm : forall h e x ys, cstep h e (OpAlias x ys) h (cset x None e) []
+| cs_copy : forall h e x y v, cget y e = Some v -> cstep h e (OpCopy x y) h (cset x v e) []
 | cs_store : forall (h : heap) (e : cenv) (x : var) (top : bool) (ys : list var) (r l : loc) (o : obj) (ks : list loc),
     cget x e = Some (Some r) ->
     (if top then l = r else reach h r l) ->
@@ -177,3 +180,18 @@ Definition owned_at (h : heap) (l : loc) : bool :=
 
 Definition params_bound (f : afun) (e : cenv) (h : heap) : Prop :=
   forall x v, cget x e = Some (Some v) -> v < List.length h.
+
+(* ------------------------------------------------------------------------------------------ *)
+(* functions analysed under an assumption on their parameters (summaries, used for C08)          *)
+
+(* [Ext]: the parameter may be one of the caller's objects (nothing reachable from it may be written);
+   [Shal]: it is a new object whose contents may be the caller's (only its top level may be written);
+   [Deep]: nothing reachable from it is the caller's (anything below it may be written).
+   A call site of a function whose summary is not [Ext] for some parameter is abstracted by the
+   translator as an [OpStore] on the corresponding argument. *)
+Record sfun := { sf_fun : afun; sf_levels : list lvl }.
+
+Definition senv (s : sfun) : aenv := combine (af_params (sf_fun s)) (sf_levels s).
+Definition safe_s (s : sfun) : bool := snd (arun (senv s) (af_body (sf_fun s))).
+
+Definition lvl_is_ext (l : lvl) : bool := match l with Ext => true | _ => false end.
